@@ -26,6 +26,7 @@ structure SubstPre (h : NNet) (c : Nat) (m : NNet) (sh : Shape) (dn : Nat) (map 
   nsize : h.net.nodes.size ≤ h'.net.nodes.size
   frameNode : ∀ d, d < h.net.nodes.size → d ≠ c → h'.net.node d = h.net.node d
   io' : h'.net.io = h.net.io
+  keyFrame : ∀ d, d < h.net.nodes.size → h'.key d = h.key d
   -- `node_map`
   mapM : ∀ j x, map.getD j none = some x → j < m.net.nodes.size
   mapGe : ∀ j x, map.getD j none = some x → x = c ∨ h.net.nodes.size ≤ x
